@@ -232,6 +232,7 @@ func buildCases(ctx *core.Ctx, shapes []Shape) []*Case {
 	cases = append(cases, TieCases()...)
 	cases = append(cases, SharedNamespaceCases()...)
 	cases = append(cases, OneErrorCases()...)
+	cases = append(cases, FailingOperationCases()...)
 	return cases
 }
 
@@ -405,6 +406,11 @@ func exploreCase(ctx *core.Ctx, c *Case, st *exploreState, repsID, repsOther int
 		}
 		report(d)
 	}
+	// the caller's input objects are the caller's: compiling must not have changed them
+	if why := GlobalsIntact(c.Globals); why != "" {
+		ctx.Violation(core.Sig{Family: "compile", Feature: "callers-globals-map-modified"},
+			fmt.Sprintf("case %s: %s", c.ID, why), &Disagreement{Case: c, Component: "globals", Kind: "input-modified", A: why})
+	}
 	// repetitions on the same compiled registry (second pass inside Observe)
 	for _, p := range perms {
 		key := OrderKey(p)
@@ -479,7 +485,10 @@ func runHistory(c *Case) {
 		return
 	}
 	for _, h := range c.History {
-		compile(h, identity(len(h)), c.Globals)
+		// compile, render and generate (both formatters): any of them may fail; what they leave
+		// behind must not show in what the process does next
+		hc := &Case{ID: c.ID + "-history", Files: h, Globals: c.Globals}
+		Observe(hc, identity(len(h)), nil)
 	}
 }
 
